@@ -1356,7 +1356,9 @@ class MPO:
         for i in range(length):
             if i % 2 == 0:
                 # Qubit site
-                if i == 0:
+                if length == 1:
+                    tensor = np.array([[h_q]], dtype=object)
+                elif i == 0:
                     tensor = np.array(
                         [
                             [
@@ -1383,11 +1385,14 @@ class MPO:
                 else:
                     tensor = np.empty((4, 4, qubit_dim, qubit_dim), dtype=object)
                     tensor[:, :] = [[zero_q for _ in range(4)] for _ in range(4)]
-                    tensor[0, 0] = h_q
-                    tensor[0, 1] = id_q
-                    tensor[0, 2] = coupling * x_q  # right resonator
-                    tensor[1, 3] = coupling * x_q  # left resonator
-                    tensor[0, 3] = id_q
+                    # same state convention as the boundary tensors and the resonator table:
+                    # 0 / 2 = term finished, 1 = left resonator holds x_r, 3 = nothing placed yet
+                    tensor[0, 0] = id_q
+                    tensor[2, 0] = id_q
+                    tensor[1, 0] = coupling * x_q  # left resonator
+                    tensor[3, 0] = h_q
+                    tensor[3, 1] = id_q
+                    tensor[3, 2] = coupling * x_q  # right resonator
                     tensor[3, 3] = id_q
             else:
                 # Resonator site
@@ -1398,6 +1403,9 @@ class MPO:
                 tensor[2, 0] = x_r
                 tensor[3, 1] = x_r
                 tensor[3, 3] = id_r
+                if i == length - 1:
+                    # even length: the chain ends on a resonator; both "finished" columns (0 and 2) close the sum
+                    tensor = (tensor[:, 0] + tensor[:, 2])[:, None]
 
             # (left, right, phys_out, phys_in) -> (phys_out, phys_in, left, right)
             tensors.append(np.transpose(tensor, (2, 3, 0, 1)))
